@@ -358,12 +358,14 @@ def parts(tier):
     quick = tier == "quick"
     maxtiers, nslots = (3, 5) if quick else (4, 6)
     empty = ((), None, None)
+    # textgrids constructed with ONE bound only: the given bound must survive the first addTier (a span only ever widens)
+    one_sided = [((), -2.0, None), ((), None, 5.0), ((), 0.5, None), ((), None, 1.5)]
     ps = [
-        BfsPart("textgrid-mutators", lambda: [empty], _ops(maxtiers, nslots), _step,
-                rule="BFS from the empty Textgrid over addTier(name in a,b,c; %d slots; index None or -2..len+2; reportingMode), "
+        BfsPart("textgrid-mutators", lambda: [empty] + one_sided, _ops(maxtiers, nslots), _step,
+                rule="BFS from the empty Textgrid (span unset, and %d spans with only one bound given) over addTier(name in a,b,c; %d slots; index None or -2..len+2; reportingMode), "
                      "removeTier, renameTier (all 16 name pairs), replaceTier, with at most %d tiers, to the reachability fixed "
                      "point; ordered-list model (python list.insert semantics) compared after every transition, exceptions "
-                     "compared by class, unchanged-on-failure; non-trivial = distinct (op, size, index class, widened)" % (nslots, maxtiers),
+                     "compared by class, unchanged-on-failure; non-trivial = distinct (op, size, index class, widened)" % (len(one_sided), nslots, maxtiers),
                 bounds={"names": 4, "slots": nslots, "max_tiers": maxtiers, "depth": "fixed point"}, max_depth=None,
                 snippet=_snippet, state_cap=600000),
         InputPart("live-sequences", lambda: ((m0, op1, 5) for m0 in (((), None, None), ((("a", 0),), 0.0, 2.0), ((("b", 1), ("a", 2)), 0.0, 3.0),
